@@ -71,8 +71,8 @@ def special_values(draw, spec, cfg, parent="root"):
         if not tg.is_dynamic(spec["item"]) and draw(st.integers(0, 7)) == 0:
             ndyn = sum(1 for d in spec["shape"] if d is None)
             if parent in ("root", "struct") or ndyn == 1:
-                return {"$dims": [draw(st.integers(0, cfg.max_dyn_extent)) for _ in range(ndyn)]}
-        shape = [draw(st.integers(0, cfg.max_dyn_extent)) if d is None else d for d in spec["shape"]]
+                return {"$dims": [draw(tg.dyn_extents(cfg)) for _ in range(ndyn)]}
+        shape = [draw(tg.dyn_extents(cfg)) if d is None else d for d in spec["shape"]]
         n = math.prod(shape)
         return {"shape": shape, "flat": [special_values(draw, spec["item"], cfg, "array") for _ in range(n)]}
     if k == "ref":
